@@ -3,7 +3,8 @@
 Writes /verif/twins/<id>/{patch.diff,probe.py,notes.md,meta.json}."""
 import json, os, shutil, subprocess, sys, re
 SRC = sys.argv[1] if len(sys.argv) > 1 else "/tmp/twinout"
-only = sys.argv[2:] 
+only = sys.argv[2:]
+OFF = int(os.environ.get("TWIN_OFFSET", "0"))   # round 2: ids continue after the first round
 DST = "/verif/twins"
 WT = "/tmp/wt_confirm_t"
 def sh(cmd, cwd=None, env=None):
@@ -13,14 +14,14 @@ subprocess.run(f"git -C /repo worktree remove --force {WT}", shell=True, capture
 rc, out = sh(f"git -C /repo worktree add -q --detach {WT} HEAD"); assert rc == 0, out
 head = sh("git -C /repo rev-parse --short HEAD")[1].strip()
 env = dict(os.environ, PYTHONPATH=WT, PYTHONDONTWRITEBYTECODE="1", PYTHONHASHSEED="0")
-for pid in sorted(os.listdir(SRC)):
+for pid in sorted(x for x in os.listdir(SRC) if os.path.isdir(os.path.join(SRC, x))):
     if only and pid not in only: continue
-    for k in sorted(os.listdir(os.path.join(SRC, pid))):
+    for k in sorted(x for x in os.listdir(os.path.join(SRC, pid)) if x.isdigit()):
         d = os.path.join(SRC, pid, k)
         patch = os.path.join(d, "patch.diff"); probe = os.path.join(d, "probe.py")
         if not (os.path.isfile(patch) and os.path.isfile(probe)): 
             continue
-        sid = f"{pid}-{k}"
+        sid = f"{pid}-{int(k) + OFF}"
         if os.path.isdir(os.path.join(DST, sid)): 
             print(sid, "already confirmed"); continue
         src = open(probe).read()
